@@ -1,6 +1,6 @@
 R BHS.Store
 R BHS.Chain
 R BHS.Query
-X Query.get_by_hash Query.tip_longest Query.by_height_range Query.by_height_range_fixed Query.tips Query.ancestors_gen Query.common_ancestor Query.common_ancestor_endpoint Query.cres_status
+X Query.get_by_hash Query.tip_longest Query.by_height_range Query.tips Query.ancestors_gen Query.common_ancestor Query.common_ancestor_endpoint Query.cres_status
 X Query.tips_ok Query.by_height_ok Query.path_ok Query.ca_ok Query.ca_candidates Query.reach_b Query.stored Query.mem_id
 X Store.min_height Store.by_hash Chain.add Chain.init
